@@ -170,6 +170,25 @@ def runSem (j : Json) : Json :=
             Json.mkObj [("name", o.name), ("cell", cell), ("latency", match l with | some v => toJson v | none => Json.null),
               ("trace", Json.arr (trace.map (fun v => Json.num (JsonNumber.fromInt v))).toArray)])
           Json.mkObj [("iterate", Json.arr results.toArray)]
+      -- memory cells: pair each gated cell of the source with its two gates; the validator then works on the
+      -- circuit cut at all gates (theorem Facto.gated_cell_end_to_end)
+      let cellPairs : List (Nat × Nat × Nat × Sig × Arg × Arg) := (List.range core.mems.size).filterMap (fun m =>
+        match core.mems[m]? with
+        | some cell =>
+          (match cell.writes, cell.ty with
+           | [WriteRule.gated d en], some ty =>
+             (match gatePairs c.circ (ren ty) with
+              | (w, h) :: _ => some (m, w, h, ren ty, d, en)
+              | [] => none)
+           | _, _ => none)
+        | none => none)
+      let cutL : List Nat := cellPairs.flatMap (fun (_, w, h, _, _, _) => [w, h])
+      let vc : Circuit := if stateful then c.circ.cut cutL else c.circ
+      let memRoots : List (Nat × Bind) := (List.range core.nodes.size).filterMap (fun n =>
+        match (core.nodes[n]? : Option CNode) with
+        | some (CNode.memRead m _) =>
+          (cellPairs.find? (fun (m', _, _, _, _, _) => m' == m)).map (fun (_, w, h, ty, _, _) => (n, Bind.sum [w, h] ty))
+        | _ => none)
       -- verified validator for the scalar fragment (theorem Facto.scalar_end_to_end)
       let roots : List (Nat × Bind) := core.named.toList.filterMap (fun nm =>
         let r := jgetD c.names nm.name
@@ -180,7 +199,7 @@ def runSem (j : Json) : Json :=
           | none =>
             -- a bundle that exists only on the wires: whatever its anchor sees
             match idxOfId c.ids s!"{src}_{nm.name}_output_anchor" with
-            | some a => some (nm.node, Bind.many (c.circ.loud a RG))
+            | some a => some (nm.node, Bind.many (vc.loud a RG))
             | none => none
         else
         match core.nodes.getD nm.node (.const "" 0) with
@@ -194,21 +213,26 @@ def runSem (j : Json) : Json :=
         | some (CNode.entOut k) => (entIdx k).map (fun i => (n, Bind.many [i]))
         | _ => none)
       let enablePairs : List (Nat × Arg) := enableObs.filterMap (fun o => o.enable.map (fun w => (o.idx, w)))
-      let bindArr := inferBindings c.circ core.nodes (entOutRoots ++ roots) enablePairs
+      let bindArr := inferBindings vc core.nodes (memRoots ++ entOutRoots ++ roots ++ cellPairs.flatMap (fun (_, w, _, ty, d, en) => proposeGated c.circ core.nodes w ty d en)) enablePairs
       let bindF : Nat → Option Bind := fun n => bindArr.getD n none
-      let rank := computeRank c.circ
-      let ranked := c.circ.checkRanked rank
-      let failing := (List.range core.nodes.size).filter (fun n => !checkNode c.circ core.nodes bindF n)
+      let rank := computeRank vc
+      let ranked := vc.checkRanked rank
+      let failing := (List.range core.nodes.size).filter (fun n => !checkNode vc core.nodes bindF n)
       let nBound := (bindArr.toList.filter Option.isSome).length
       let matchJson := Json.mkObj <| [("ranked", Json.bool ranked), ("all", Json.bool failing.isEmpty),
         ("failing_nodes", Json.arr (failing.map (fun n => Json.mkObj [("node", toJson n),
             ("kind", Json.str ((toString (repr (core.nodes.getD n (.const "" 0)))).take 60).toString)])).toArray),
         ("bound", nBound), ("roots", roots.length), ("nodes", core.nodes.size),
+        ("cells", Json.arr (cellPairs.map (fun (m, w, h, ty, d, en) =>
+          Json.mkObj [("mem", toJson m), ("write_gate", toJson w), ("hold_gate", toJson h), ("type", Json.str ty),
+            ("proved", Json.bool (stateful && failing.isEmpty && cutOK c.circ cutL &&
+              gatedCellIs c.circ vc core.nodes bindF w h ty d en))])).toArray),
+        ("n_mems", core.mems.size),
         ("proved_names", Json.arr (if ranked && failing.isEmpty then
             -- a name is proved when its node is bound and the place it is observed at reads exactly that binding
             (obs.filterMap (fun o =>
               if let some w := o.enable then
-                (if enableIs c.circ core.nodes bindF o.idx w then some (Json.str o.name) else none)
+                (if enableIs vc core.nodes bindF o.idx w then some (Json.str o.name) else none)
               else
               match bindF o.node with
               | some (.konst _) => none
@@ -224,12 +248,12 @@ def runSem (j : Json) : Json :=
                    | .ent e _ => if e == o.idx then some (Json.str o.name) else none
                    | .many [e] => if e == o.idx then some (Json.str o.name) else none
                    | _ => none)
-                else if obsOK c.circ o.idx b then some (Json.str o.name) else none
+                else if obsOK vc o.idx b then some (Json.str o.name) else none
               | none => none)).toArray else #[]))] ++
         (if (jgetD j "dump").getBool?.toOption.getD false then
           [("dump", Json.mkObj [
-            ("kinds", Json.arr (c.circ.kinds.map (fun k => Json.str (toString (repr k))))),
-            ("prodR", Json.str (toString (repr c.circ.prodR))), ("prodG", Json.str (toString (repr c.circ.prodG))),
+            ("kinds", Json.arr (vc.kinds.map (fun k => Json.str (toString (repr k))))),
+            ("prodR", Json.str (toString (repr vc.prodR))), ("prodG", Json.str (toString (repr vc.prodG))),
             ("nodes", Json.arr (core.nodes.map (fun k => Json.str (toString (repr k))))),
             ("bind", Json.arr (bindArr.map (fun k => Json.str (toString (repr k)))))])]
          else [])
